@@ -113,8 +113,7 @@ class TcpConnection():
             self.tracking_events_count += TRACKING_SOCKET_EVENTS_TIMEOUT
 
             for key, mask in self.events:
-                if key.data is not None:
-                    self.data_stream += key.data
+                self._absorb_attached_stream()
 
                 if mask & selectors.EVENT_WRITE:
                     tcp_connection.debug(f"Selector notified EVENT_WRITE")
@@ -125,9 +124,41 @@ class TcpConnection():
                     self.read()
 
 
+    def _absorb_attached_stream(self) -> None:
+        #: Takes over, exactly once, the stream attached to the selector key
+        #: by _set_selector_events_mask("rw", stream).
+        self.lock.acquire()
+        try:
+            key = self.selector.get_key(self.sock)
+            if key.data is not None:
+                self.data_stream += key.data
+                self.selector.modify(self.sock, key.events, data=None)
+
+        except (KeyError, ValueError):
+            pass
+
+        finally:
+            self.lock.release()
+
+
+    def _has_pending_stream(self) -> bool:
+        try:
+            attached = self.selector.get_key(self.sock).data
+        except (KeyError, ValueError):
+            attached = None
+
+        return bool(attached or self.data_stream or self._send_buffer)
+
+
     def _set_selector_events_mask(self, mode: Literal["r", "w", "rw"], msg: Any = None) -> None:
         self.lock.acquire()
-        if mode == "r":
+        if mode == "r" and self._has_pending_stream():
+            #: There are still bytes to be written, e.g. a stream attached 
+            #: while a read event was being handled: keep the WRITE interest.
+            tcp_connection.debug(f"[Socket-{self.sock_id}] Keeping "\
+                                 f"selector events mask: pending stream")
+
+        elif mode == "r":
             tcp_connection.debug(f"[Socket-{self.sock_id}] Updating "\
                                  f"selector events mask [READ]")
 
@@ -151,6 +182,19 @@ class TcpConnection():
                                  f"selector events mask [READ/WRITE]")
 
             self.events_mask = selectors.EVENT_READ | selectors.EVENT_WRITE
+
+            #: A stream which has not been taken over by the transport 
+            #: thread yet is kept: the new one is appended to it.
+            try:
+                attached = self.selector.get_key(self.sock).data
+            except (KeyError, ValueError):
+                attached = None
+
+            if attached and msg:
+                msg = attached + msg
+            elif attached:
+                msg = attached
+
             self.selector.modify(self.sock, self.events_mask, data=msg)
             self.write_mode_on.set()
             self.read_mode_on.set()
@@ -182,7 +226,7 @@ class TcpConnection():
 
 
     def write(self) -> None:
-        if not self.send_data_stream_queued and self.data_stream:
+        if self.data_stream:
             self._send_buffer += self.data_stream
             self.data_stream = b""
             self.send_data_stream_queued = True
